@@ -115,7 +115,7 @@ def gen_write_op(rng, model, prof):
             op["m"] = rng.choice(names)
         if rng.random() < 0.3 and not via_h:
             op["compact"] = True
-        op["ps_form"] = rng.choice(["list", "list", "tuple", "gen", "iter", "values"])
+        op["ps_form"] = rng.choice(["list", "list", "tuple", "gen", "iter", "values", "gen_reading"])
         # (one Point object is never given twice: MemoryStorage keeps the caller's objects themselves, so a second
         # insert of the same object aliases two stored positions - the listed in-place-mutation finding, not generated)
         if prof.failing_batches and rng.random() < 0.12:
@@ -134,8 +134,12 @@ def gen_write_op(rng, model, prof):
         op["q"] = targeted_query(rng, model, prof.query_opts)
         if not via_h and rng.random() < 0.2:
             op["m"] = rng.choice(names + ["absent"])
+            if rng.random() < 0.3:
+                op["m_form"] = "enum"
     elif kind == "drop_measurement":
         op["name"] = rng.choice(names + ["absent"])
+        if rng.random() < 0.15:
+            op["m_form"] = "enum"
     return op
 
 
@@ -164,6 +168,8 @@ def query_probes(rng, model, prof, via_choices=("db",)):
                 op["m"] = rng.choice(names)
             elif r < 0.4:
                 op["m"] = rng.choice(names)
+                if rng.random() < 0.15:
+                    op["m_form"] = "enum"
             if kind == "search":
                 op["sorted"] = rng.random() < 0.5
             if kind == "select":
